@@ -214,7 +214,29 @@ def _analyzer_case(c):
     rb = ana.raw_fields(base)
     nf = len(pf["f"])
     out["extra"]["analyses"] += 1
-    # order -1 (and every order): equals the reference on raw / detrended windowed segments
+    # order -1: no detrending at all - the estimate is that of the raw windowed segments (reference with no trend removal),
+    # on the full path and on the single-bin path; an added offset must show up at the lowest bin
+    if order == -1:
+        for j in range(nf):
+            L = int(pf["L"][j])
+            ref, tl = ana.ref_bin(x, y, fs, pf["f"][j], L, pf["D"][j], wref(L), -1)
+            bad, got = ana.bin_mismatch(rb, j, ref, tl, y is None)
+            out["evals"] += 1
+            out["nontrivial"] += 1
+            if bad:
+                out["failures"].append(fw.fail(f"A/raw/{c['backend']}/{mode}/full/{'+'.join(bad)}", f"order -1, bin {j} (L={L}): {got} differs from the raw windowed-segment reference {ref} :: {c}", c))
+                break
+        an_ = ana.make_analyzer(ana.as_input(x, y), fs, **kw)
+        for j in sorted({0, nf // 2, nf - 1}):
+            sb = an_.compute_single_bin(float(pf["f"][j]), L=int(pf["L"][j]))
+            Ls, Ds = int(sb.L[0]), np.asarray(sb.D[0], dtype=np.int64)
+            ref, tl = ana.ref_bin(x, y, fs, float(pf["f"][j]), Ls, Ds, wref(Ls), -1)
+            bad, got = ana.bin_mismatch(ana.raw_fields(sb), 0, ref, tl, y is None)
+            out["evals"] += 1
+            out["nontrivial"] += 1
+            if bad:
+                out["failures"].append(fw.fail(f"A/raw/{c['backend']}/{mode}/single/{'+'.join(bad)}", f"order -1, single bin at f={pf['f'][j]!r} L={Ls}: {got} differs from the raw windowed-segment reference {ref} :: {c}", c))
+                break
     whos = ("x", "y", "both") if mode == "cross" else ("x",)
     for c0, c1, c2, who in itertools.product(C0, C1, C2, whos):
         dg = degree(c0, c1, c2)
